@@ -40,7 +40,7 @@ ColSets == { Universe,
 Rph == {"roll", "pitch", "heading"}
 Lla == {"lat", "lon", "alt"}
 
-\* integer signal values (lat/lon: offset in micro-degrees from the base point 50N 30E the harness adds; everything else
+\* integer signal values (lat/lon: offset in milli-degrees from the base point 50N 30E the harness adds; everything else
 \* in its own unit); heading is the UNWRAPPED ramp
 Val(sig, col, t) ==
   CASE col = "VN"      -> (IF sig = 1 THEN 3 * t + 1 ELSE IF sig = 2 THEN t * t ELSE 7 - 2 * t)
